@@ -147,19 +147,29 @@ def cached_run_units(units, jobs, tier, seed):
     if todo:
         for (u, f), r in zip(todo, run_units([u for u, _f in todo], None, jobs)):
             if r["status"] != "crash":
-                tmp = f + f".{os.getpid()}.tmp"
-                json.dump(r, open(tmp, "w"))
-                os.replace(tmp, f)
+                # the memo is an optimisation only: a failure to store (e.g. a concurrent check of another tree pruning the
+                # cache) must never affect the verdict
+                try:
+                    os.makedirs(cdir, exist_ok=True)
+                    tmp = f + f".{os.getpid()}.tmp"
+                    json.dump(r, open(tmp, "w"))
+                    os.replace(tmp, f)
+                except OSError:
+                    pass
             r["cache"] = "computed:" + key
             res[u.name] = r
-    # keep the cache small: only the newest few keys stay
+    # keep the cache small: only the newest few keys stay; never the current one, never one that was used in the last hour
+    # (concurrent checks of other trees may be writing there)
     try:
+        import shutil
+        import time as _time
+
         root = os.path.join(HERE, "out", "cache")
         keys = sorted(os.listdir(root), key=lambda d: os.path.getmtime(os.path.join(root, d)))
-        import shutil
-
         for d in keys[:-4]:
-            shutil.rmtree(os.path.join(root, d), ignore_errors=True)
+            pth = os.path.join(root, d)
+            if d != key and _time.time() - os.path.getmtime(pth) > 3600:
+                shutil.rmtree(pth, ignore_errors=True)
     except Exception:
         pass
     return [res[u.name] for u in units]
